@@ -10,7 +10,7 @@ TB = ("TLC 1.8 and the CommunityModules; the harness's projection of real object
       "CPython's json / pickle / copy / re are taken as given")
 
 CLAIMS = {
-    "C01": ("spec NodeOps (small-step interpreter of the mutators with hook-fault plans) + TLC invariants; every big-step transition replayed into 6 class families x both assertion settings; observations judged by TLC (TraceOps)",
+    "C01": ("spec NodeOps (small-step interpreter of the mutators with hook-fault plans) + TLC invariants; every big-step transition replayed into 6 class families x both assertion settings; observations judged by TLC (TraceOps); tlc -simulate histories (MC_OpsSim) replayed as chains of calls on the same live objects",
             "Exhaustive within bounds: all forests over N<=4 (5 thorough) nodes, all calls, every hook-fault position; WellFormed is a TLC invariant of the model and is evaluated by TLC on every observed post-state and hook snapshot that differs from the model.", "6/C01"),
     "C02": ("declarative IdealEffect/MustRefuse (NodeOpsProps) checked against the interpreter by TLC (Thm_C02); all fault-free transitions replayed; differing observations judged by TLC",
             "Exhaustive within bounds over forests, node/target pairs and children sequences incl. repeats, self, ancestors, descendants, non-node and non-iterable arguments, constructors.", "6/C02"),
